@@ -53,6 +53,7 @@ def resolve_deep(fn, e):
 
 def rule_impl(chk, rel, cls, fn):
     who = '%s.%s' % (cls.name, fn.name)
+    fn = M.counter_loops_as_for(fn)        # a pass over a table written with a counter and `while` is the same pass
     args = M.arg_names(fn)
     if len(args) < 3:
         chk.undecided('ordered-indices', who + ':signature', node=fn, file=rel, func=who, detail='unexpected signature %s' % args)
@@ -231,7 +232,8 @@ def rule_apply(chk):
     slog = []
     try:
         it2 = EM.interpreter()
-        nn2 = EM.mock(spatially_order_particles=lambda i, args, k, n, e: slog.append(('order', args[0])), update=lambda i, args, k, n, e: slog.append(('update',)))
+        nn2 = EM.mock(spatially_order_particles=lambda i, args, k, n, e: slog.append(('order', args[0])), update=lambda i, args, k, n, e: slog.append(('update',)),
+                      update_domain=lambda i, args, k, n, e: slog.append(('update_domain',)))
         parr = [EM.mock(name='p%d' % k_, align_particles=lambda i, a, k, n, e, k_=k_: slog.append(('align', k_))) for k_ in range(3)]
         # serial and parallel set-ups alike (pm = None / a parallel manager)
         pm_log = []
@@ -249,6 +251,20 @@ def rule_apply(chk):
                    detail_bad='with three arrays the solver re-orders %s' % orders, detail_ok='every array once')
         chk.decide(not [l for l in slog if l[0] == 'missing-update'], 'reorder-all-arrays-then-update', 'update-after', node=rp, file=SOL, func='Solver.reorder_particles',
                    detail_bad='the neighbour structures are not rebuilt after the particles were permuted (stale indices): %s' % slog, detail_ok='nnps.update() after the last re-ordering')
+        # the index lists are read from the binning structures: those must describe the arrays as they are - update_domain() (wrap, ghosts removed and re-created) changes
+        # the arrays, so no re-ordering may follow it without a re-binning update() in between
+        stale_at, binned = None, True
+        for l in slog:
+            if l[0] == 'update_domain':
+                binned = False
+            elif l[0] == 'update':
+                binned = True
+            elif l[0] == 'order' and not binned and stale_at is None:
+                stale_at = l
+        chk.decide(stale_at is None, 'reorder-all-arrays-then-update', 'binning-current-when-ordering', node=rp, file=SOL, func='Solver.reorder_particles',
+                   detail_bad='array %s is re-ordered after nnps.update_domain() without a re-binning nnps.update() in between (calls: %s): the index list comes from structures built for '
+                              'the arrays before their ghosts were re-created - not a permutation of the current particles' % (stale_at[1] if stale_at else '', [l_[0] for l_ in slog][:8]),
+                   detail_ok='nothing changes the arrays between the last binning and the re-ordering')
         ok_solver = all(('align', k_) in slog for k_ in range(3))
     except (AI.Unsupported, AI.Raised) as e:
         chk.undecided('reorder-all-arrays-then-update', 'model-run', node=rp, file=SOL, func='Solver.reorder_particles', detail='not interpretable on the model: %s' % e)
